@@ -1,6 +1,6 @@
 //! Independent reference CBOR writer used as the oracle of the encode-side harnesses.
 //! Shares no code with CSL or cbor_event: heads are written from RFC 8949 section 3.
-pub const CAP: usize = 160;
+pub const CAP: usize = 256;
 
 #[derive(Clone, Copy)]
 pub struct Buf {
